@@ -10,7 +10,7 @@ Definition m_init : list Z := upd (repeat MAX_METRIC 16) 0 0.
 Lemma vit_forward_S tb W sc r n :
   vit_forward tb W sc r (S n) =
   vit_step tb (makeCost W) makeNextState (vit_forward tb W sc r n) n (nth (2 * n) r 0) (nth (2 * n + 1) r 0).
-Proof. unfold vit_forward. rewrite seq_S, fold_left_app. reflexivity. Qed.
+Proof. unfold vit_forward, vit_forward_t. rewrite seq_S, fold_left_app. reflexivity. Qed.
 
 Lemma costs_of_S W r n : costs_of W r (S n) = costs_of W r n ++ [step_cost W r n].
 Proof. unfold costs_of. rewrite seq_S, map_app. reflexivity. Qed.
@@ -29,7 +29,7 @@ Lemma forward_model tb W sc r : (2 <= W <= 6)%nat -> length (sc_curr sc) = 16%na
   map dec_list (firstn n (sc_hist st)) = snd (forward16 tb m_init (costs_of W r n)) /\
   length (sc_hist st) = length (sc_hist sc) /\ length (sc_curr st) = 16%nat /\ length (sc_prev st) = 16%nat.
 Proof. intros HW Hc. induction n as [|n IH]; intros Hn.
-- cbn zeta. unfold vit_forward. cbn [seq fold_left vit_init sc_prev sc_hist sc_curr firstn map costs_of forward fst snd].
+- cbn zeta. unfold vit_forward, vit_forward_t. cbn [seq fold_left vit_init sc_prev sc_hist sc_curr firstn map costs_of forward fst snd].
   repeat split; try reflexivity. exact Hc.
 - cbn zeta. rewrite vit_forward_S. specialize (IH ltac:(lia)). cbn zeta in IH.
   destruct IH as (I1 & I2 & I3 & I4 & I5).
@@ -142,7 +142,8 @@ Lemma decode_is_dp tb W IN OUT sc out0 r :
   wf_scratch sc -> length out0 = OUT ->
   fst (decode_gen tb W IN OUT sc out0 r) = dp_result tb W IN OUT r /\ wf_scratch (snd (decode_gen tb W IN OUT sc out0 r)).
 Proof. intros HW HIN HOUT (W1 & W2 & W3) Hout. change NumStates with 16%nat in W2, W3.
-  unfold decode_gen, dp_result. cbn [fst snd].
+  unfold decode_gen, decode_t, dp_result. cbn [fst snd make_tables t_prev t_limit].
+  change (vit_forward_t (make_tables W) tb sc r (IN / 2)) with (vit_forward tb W sc r (IN / 2)).
   set (n := (IN / 2)%nat) in *.
   destruct (forward_model tb W sc r HW W3 n ltac:(lia)) as (F1 & F2 & F3 & F4 & F5). cbv zeta in F1, F2, F3, F4, F5.
   set (st := vit_forward tb W sc r n) in *.
